@@ -202,8 +202,7 @@ Fixpoint compile (s : stmt) : prog :=
                       | None => emit (fun _ _ => [7; Z.of_nat tname]%Z)
                       end)
   | SRaise cls =>
-      Do (fun o _ => err (o <| serial := S (serial o) |>)
-                         (if Nat.eqb cls 3 then EAssertion else EUser cls (serial o)))
+      Do (fun o _ => err (o <| serial := S (serial o) |>) (EUser cls (serial o)))
   | STry body hs fin =>
       Finally (Catch (compile_list body)
                      (fun e => match find_handler hs e with
@@ -271,11 +270,11 @@ Definition init_state (s : scenario) : mstate :=
   | None =>
       {| ob := init_objs s (length (sc_roots s));
          acts := map (fun r => ANew (compile_list r)) (sc_roots s);
-         result := RGoing |}
+         result := RGoing; klog := [] |}
   | Some t =>
       {| ob := init_objs s 1;
          acts := [ANew (n <- eval_wt (WMoment t) ;; scope_block 999 (Some (vnat n)) (do_roots 999 0 (sc_roots s)))];
-         result := RGoing |}
+         result := RGoing; klog := [] |}
   end.
 
 Definition final_event (m : mstate) : list Z :=
